@@ -40,7 +40,7 @@ from bv.stacks.netsys import NetSystem, run_execution, know_of
 
 PROPERTY = "C06"
 LEVEL = "model_checking"
-BUDGET = {"quick": 90.0, "thorough": 1500.0}
+BUDGET = {"quick": 130.0, "thorough": 1800.0}
 RULE = ("configurations: every unlabeled tree of N networks joined by routers with 2..4 ports (AHU-canonical enumeration), "
         "every vector of stations per network up to tree automorphism, optionally one (router, home port) up to automorphism "
         "carrying an application, table mode (including routers that come up after the first request and announce lists of "
